@@ -154,6 +154,16 @@ def corpus(seed, n):
                 b = b.replace("a: T", "#[educe(Into(u8))] a: T").replace("V(T)", "V(#[educe(Into(u8))] T)").replace("x: T", "#[educe(Into(u8))] x: T")
             cases.append(("h%d" % hk, Hand([t]), "#[derive(Educe)]\n#[educe(%s)]\n%s\n" % (spelled, b)))
             hk += 1
+    # field-less enums with explicit discriminants out of declaration order, every trait alone; custom methods given as
+    # strings whose path names the helper names of the impl (what a feature gate inside a shared helper would change)
+    for t in G.ALL_TRAITS:
+        if t in ("Deref", "DerefMut", "Into"):
+            continue
+        cases.append(("e%s" % t, Hand([t]), "#[derive(Educe)]\n#[educe(%s)]\nenum E { #[educe(Default)] High = 30, Low = 10, Minus = -5, Next }\n".replace(
+            "#[educe(Default)] ", "#[educe(Default)] " if t == "Default" else "") % t))
+    for i, (t, attr) in enumerate([("Hash", "Hash(method = \"hash_tagged::<H>\")"), ("Hash", "Hash(method(\"HH::h::<H>\"))"), ("Hash", "Hash(method(hash_tagged::<H>))"),
+                                   ("Debug", "Debug(method = \"Educe__DebugField::f\")"), ("Debug", "Debug(method(\"x::<Educe__RawString>\"))")]):
+        cases.append(("m%d" % i, Hand([t]), "#[derive(Educe)]\n#[educe(%s)]\nstruct S { #[educe(%s)] a: u8, b: u8 }\n" % (t if i != 4 else "Debug(name = false)", attr)))
     # one trait educed alone, a field attribute under the name of every OTHER trait: the all-features build refuses it
     # ("the trait is not used"), a build in which that other trait is disabled has to refuse it as well
     fattrs = {"Debug": ["Debug(ignore)", "Debug = false", "Debug(name = x)"], "Clone": ["Clone(method(f))"], "Copy": ["Copy"],
